@@ -59,10 +59,15 @@ def sp(xs):
     return " ".join(map(str, xs))
 
 
-def gen_api(rng, i, prec=None, psv=None, wide=None):
+def gen_api(rng, i, prec=None, psv=None, wide=None, bad=False):
     prec = prec or rng.range(2, 16)
     psv = psv or rng.range(1, 7)
     pt = 0 if rng.chance(1, 2) else rng.range(0, prec - 1)
+    if bad:        # outside 1 <= Ss <= 7 / 0 <= Al < precision: both APIs must refuse
+        if rng.chance(1, 2):
+            psv = rng.choice([0, 8, -1, 15])
+        else:
+            pt = rng.choice([prec, prec + 1, 16, -1])
     w = wide or rng.choice(WIDTHS)
     h = rng.choice([1, 1, 2, 3, 4, 5, 8]) if not wide else rng.choice([2, 3])
     kind = "tj" if rng.chance(1, 2) else "lj"
@@ -90,11 +95,15 @@ def gen_api(rng, i, prec=None, psv=None, wide=None):
         pf = rng.choice([0, 0, 1] + ([2, 3] if nc == 3 else []))
         bufimg = rng.below(2)
         scanmode = rng.choice([0, 0, 1, 2, 3]) if nc >= 2 else rng.choice([0, 1])
+        if bad:
+            scanmode = rng.choice([0, 1])
         if scanmode == 2:
             pairs = [(psv, pt)] + [(rng.range(1, 7), 0 if rng.chance(1, 2) else rng.range(0, prec - 1)) for _ in range(nc - 1)]
         elif scanmode == 3:
             p2 = (rng.range(1, 7), 0 if rng.chance(1, 2) else rng.range(0, prec - 1))
             pairs = [(psv, pt)] + [p2] * (nc - 1)
+        if nc > 4 and bad:
+            nc = 4
         if nc > 4:          # more components than fit one scan: JCS_UNKNOWN with a scan script
             pf = 1
             scanmode = rng.choice([2, 4])
@@ -108,7 +117,7 @@ def gen_api(rng, i, prec=None, psv=None, wide=None):
     line = "api %s %d %d %d %d %d %d %d %d %d %d %d %d | %s | %s" % (
         kind, prec, w, h, nc, ri, rmode, rval, pf, bottomup, pad, scanmode, bufimg,
         sp([x for p in pairs for x in p]), " | ".join(sp(p) for p in planes))
-    meta = {"prec": prec, "w": w, "h": h, "nc": nc, "ri": ri, "pairs": pairs, "planes": planes, "kind": kind,
+    meta = {"prec": prec, "w": w, "h": h, "nc": nc, "ri": ri, "pairs": pairs, "planes": planes, "kind": kind, "bad": bad,
             "key": (kind, prec, psv, pt != 0, w, h, nc, rmode, ck, scanmode, pf)}
     return line, "api-" + kind, meta
 
@@ -218,6 +227,8 @@ def oracle(case, impl):
     if kind in ("api-tj", "api-lj"):
         if impl == "rej":
             return None       # the compressor refused the parameters: nothing to reproduce
+        if meta.get("bad"):
+            return "predictor/point transform outside the legal range was accepted: " + impl[:80]
         r = parse_api_out(impl)
         if r is None:
             return "round trip failed: " + impl[:120]
@@ -264,7 +275,7 @@ def oracle(case, impl):
 
 def run(ctx):
     rng = ctx.rng
-    ctx.regen(["Lossless"])
+    ctx.regen(["Lossless", "StdHuff"])      # StdHuff: imported by proofs/HuffCodeProofs.v (C19 inverse theorem)
     ctx.prove()
     drv = ctx.model_driver()
     flavours = ["simd", "asan"]
@@ -300,6 +311,10 @@ def run(ctx):
         line, kind, meta = gen_api(rng, i)
         cases.append((line, "api", kind, meta))
         i += 1
+    for _ in range(ctx.n(40, 1000)):
+        line, kind, meta = gen_api(rng, i, bad=True)
+        cases.append((line, "api", kind, meta))
+        i += 1
     # wide rows: restart_in_rows * width above / below the 16-bit DRI limit
     for wide in [65500, 40000, 21845] + ([32768, 21846, 13107, 65499] if ctx.thorough() else []):
         line, kind, meta = gen_api(rng, i, wide=wide)
@@ -330,7 +345,8 @@ def classify(line):
         pairs = [(pp[2 * k], pp[2 * k + 1]) for k in range(len(pp) // 2)]
         pairs = (pairs + [pairs[-1]] * nc)[:nc]
         planes = [[int(x) for x in f[2 + c].split()] for c in range(nc)]
-        return (line, "api", "api-" + hd[1], {"prec": prec, "w": w, "h": h, "nc": nc, "ri": ri, "pairs": pairs,
+        bad = any(not (1 <= a <= 7 and 0 <= b < prec) for a, b in pairs)
+        return (line, "api", "api-" + hd[1], {"prec": prec, "w": w, "h": h, "nc": nc, "ri": ri, "pairs": pairs, "bad": bad,
                                              "planes": planes, "kind": hd[1], "key": ("corpus", line[:60])})
     if hd[0] == "inj":
         nc = int(hd[4])
